@@ -71,6 +71,12 @@ impl Str {
     /// string literal
     #[verifier::external_body]
     pub fn lit(s: &'static str) -> (r: Str) ensures r@ == s@ { unimplemented!() }
+    /// `{x}` of a String / Addr inside an identifier-building `format!`
+    #[verifier::external_body]
+    pub fn of<A: AsStr>(a: &A) -> (r: Str) ensures r@ == a.sv() { unimplemented!() }
+    /// `{n}` of a u64 inside an identifier-building `format!`
+    #[verifier::external_body]
+    pub fn from_u64(n: u64) -> (r: Str) ensures r@ == u64_str(n) { unimplemented!() }
     /// opaque result of `format!` / `to_string()` on non-identifier data (text is dropped)
     #[verifier::external_body]
     pub fn opaque() -> (r: Str) { unimplemented!() }
@@ -165,6 +171,16 @@ impl<T> UnwrapExt<T> for Option<T> {
 impl<T, E> UnwrapExt<T> for Result<T, E> {
     #[verifier::external_body]
     fn unwrap_(self) -> (r: T) ensures self is Ok, self->Ok_0 == r { unimplemented!() }
+}
+
+pub trait UnwrapOrDefaultExt<T>: Sized { fn unwrap_or_default_(self) -> T; }
+impl<E> UnwrapOrDefaultExt<Uint128> for Result<Uint128, E> {
+    #[verifier::external_body]
+    fn unwrap_or_default_(self) -> (r: Uint128) ensures match self { Ok(v) => r == v, Err(_) => r@ == 0 } { unimplemented!() }
+}
+impl UnwrapOrDefaultExt<u64> for Option<u64> {
+    #[verifier::external_body]
+    fn unwrap_or_default_(self) -> (r: u64) ensures match self { Some(v) => r == v, None => r == 0 } { unimplemented!() }
 }
 
 // ---------------------------------------------------------------- to_string (R4: `.to_string()` -> `.to_str_()`)
